@@ -78,6 +78,20 @@ func HarnessC09() {
 		return
 	}
 	verif.Reach("built")
+	if verif.Param("faults", 0) == 1 {
+		// a failure anywhere while the archive is written (header, body, flushes, closing the tar or
+		// the gzip stream) is reported: no truncated archive passes as written
+		for run := 0; run < envFaultRuns(); run++ {
+			envTarResetOutput()
+			envFaultArm(run, 1)
+			werr := bundle.WriteArchive(envWriter())
+			if envFaultsHit() > 0 {
+				verif.Reach("archive-write-fault")
+				verif.Assert("C09-failed-archive-write-is-reported", werr != nil)
+			}
+		}
+		return
+	}
 	// (i) what the builder was given comes back
 	_, pkgs := wClosure([]wFinderKey{{n, 0}})
 	for p := range pkgs {
